@@ -24,3 +24,22 @@ Print Assumptions C10_case_wfb_sound.
 Theorem C10_model_passes_base : forall c, base_wf c -> c10_wf c -> CtrlC10.holdsb (with_obs c (model_obs c)) = true.
 Proof. exact CtrlLinksC10.C10_model_passes_base. Qed.
 Print Assumptions C10_model_passes_base.
+
+(* ---- second C10 observer (Drv/CtrlC10Progress.v): raises keep coming, the walk to the maximum ends ----
+   needs only a usable PWM map and sane limits ([base_wf]) *)
+From F2G Require Proofs.CtrlLinksC10Progress Drv.CtrlC10Progress.
+
+Theorem C10_progress_model_passes : forall c, base_wf c -> CtrlC10Progress.holdsb (with_obs c (model_obs c)) = true.
+Proof. exact CtrlLinksC10Progress.C10_progress_model_passes. Qed.
+Print Assumptions C10_progress_model_passes.
+
+Theorem C10_progress_no_false_alarm : forall c, mismatch c = false -> base_wf c -> CtrlC10Progress.holdsb c = true.
+Proof. exact CtrlLinksC10Progress.C10_progress_no_false_alarm. Qed.
+Print Assumptions C10_progress_no_false_alarm.
+
+(* the arithmetic fact behind "a raise at least every second cycle": moving the floor up by one moves the
+   steady request by 0 or 1 (exhaustive over curve values 0..255 and ranges 1..255) *)
+Theorem C10_steady_floor_step : forall v lo hi, (0 <= lo -> lo + 1 <= hi -> hi <= 255 ->
+  Controller.steady v lo hi <= Controller.steady v (lo + 1) hi <= Controller.steady v lo hi + 1)%Z.
+Proof. exact CtrlLinksC10Progress.steady_floor_step. Qed.
+Print Assumptions C10_steady_floor_step.
